@@ -57,7 +57,9 @@ RULE = (
     "(inverse / inverse(link) / inv / link(partner with parameters | parameter-less partner) / unlink / copy / condition / "
     "data / grid applied to the LAST derived object, update() of the last object in between) from every transform with "
     "NON-ZERO parameters of kind Parameter / buffer / callable, fresh and updated; after every step the fingerprint (bitwise "
-    "values, identity, _version) of EVERY earlier live object is compared; non-trivial = the chain has >= 3 live objects"
+    "values, identity, _version) of EVERY earlier live object is compared; non-trivial = the chain has >= 3 live objects. "
+    "layout: the first 2 call variants of every function x {transposed view, step-sliced view, stride-0 expanded batch} of ALL "
+    "tensor arguments: no exception where the contiguous form returns, same result, arguments unchanged (bits, strides, _version)"
 )
 EXPLANATION = "before/after comparison of every argument and receiver over the whole API surface and over bounded copy/mutate histories"
 ASSUMPTIONS = [
@@ -66,13 +68,15 @@ ASSUMPTIONS = [
     "explicit in-place variants (inplace=True, out=, trailing underscore) are excluded from the func and accessor menus",
     "lazy evaluation methods of transforms (tensor(), disp(), __call__, update()) may register buffers by design and are not accessors",
     "objects related only by shallow copies share tensors by design; only deep-copy independence is judged in histories",
+    "layout: floating results are compared with |a-b| <= 64 eps32 x 16 x max(1, |ref|max) (another kernel / summation order is "
+    "legitimate for another memory layout), integer / bool results exactly; random draws (multinomial, rand_sample) by shape only",
     "derivation chains: a non-underscore accessor must leave its receiver AND every ancestor the receiver was derived from untouched",
     "states that contain uninitialised memory by construction (never-updated callable parameters, link to a parameter-less partner, "
     "unlink) are hashed by structure only; before/after comparisons inside one process are exact",
 ]
 MIN_NONTRIVIAL = {"quick": 40000, "thorough": 150000}  # measured quick 87679
 MIN_OUTCOMES = {"quick": 55000, "thorough": 300000}  # measured quick 110956
-MIN_SUB_TRACES = {"func": 4000, "accessor": 2000, "history": 12000, "eval": 1900, "chain": 35000}  # measured (quick) 6268 / 4230 / 25756 / 3800 / 70902
+MIN_SUB_TRACES = {"func": 4000, "accessor": 2000, "history": 12000, "eval": 1900, "chain": 35000, "layout": 400}  # measured (quick) 6268 / 4230 / 25756 / 3800 / 70902
 
 
 # ---------------------------------------------------------------------------
@@ -1275,6 +1279,138 @@ def explore_chain(acc: Acc, spec, prefix, depth):
 
 
 # ===========================================================================
+# sub-check: layout.  Reduced menu of the functional API (first LAYOUT_VARIANTS call variants of every function) with every
+# tensor argument given as a non-contiguous view of the same values (ref/layout.py): the call must not raise where the
+# contiguous form does not, must return the same result, and must leave the arguments alone (bits, strides, _version).
+LAYOUT_FORMS = (("transposed", "contig"), ("sliced", "contig"), ("expanded", "repeat"))
+LAYOUT_VARIANTS = 2
+LAYOUT_SKIP = {"empty_image"}  # returns uninitialised memory
+LAYOUT_RANDOM = {"multinomial", "rand_sample"}  # which samples are drawn may depend on the memory layout: shapes only
+EPS32 = 2.0 ** -23
+
+
+def layout_cases(tier):
+    out = []
+    for mod, name in R.surface():
+        if name in LAYOUT_SKIP or R.recipe_for(mod, name) is None:
+            continue
+        D = 2 if func_variants(mod, name, 2) else 3
+        out.append((mod, name, D))
+    return out
+
+
+def result_diff(a, b, path="result"):
+    """None if two call results agree, else a short description.  Floating tensors: |a-b| <= 64 eps32 x 16 x max(1, |ref|max)
+    (same arithmetic, possibly another kernel / summation order for another memory layout); everything else exact."""
+    if isinstance(a, Tensor) or isinstance(b, Tensor):
+        if not (isinstance(a, Tensor) and isinstance(b, Tensor)):
+            return ("shape", f"{path}: {type(a).__name__} vs {type(b).__name__}")
+        if a.shape != b.shape or a.dtype != b.dtype:
+            return ("shape", f"{path}: {tuple(a.shape)} {a.dtype} vs {tuple(b.shape)} {b.dtype}")
+        a, b = a.detach(), b.detach()
+        if a.is_floating_point():
+            x, y = a.double(), b.double()
+            nan = torch.isnan(x) | torch.isnan(y)
+            if bool((torch.isnan(x) != torch.isnan(y)).any()):
+                return ("value", f"{path}: NaN pattern differs")
+            if x.numel() == 0:
+                return None
+            x, y = torch.where(nan, torch.zeros_like(x), x), torch.where(nan, torch.zeros_like(y), y)
+            fin = torch.isfinite(x) & torch.isfinite(y)
+            if bool((torch.isfinite(x) != torch.isfinite(y)).any()) or bool((x[~fin] != y[~fin]).any()):
+                return ("value", f"{path}: infinities differ")
+            scale = max(1.0, float(x[fin].abs().max())) if bool(fin.any()) else 1.0
+            err = float((x[fin] - y[fin]).abs().max()) if bool(fin.any()) else 0.0
+            tol = 64 * EPS32 * 16 * scale
+            return None if err <= tol else ("value", f"{path}: max abs difference {err:.3g} > tol {tol:.2g}")
+        return None if torch.equal(a, b) else ("value", f"{path}: integer / bool values differ")
+    if isinstance(a, (tuple, list)) and isinstance(b, (tuple, list)):
+        if len(a) != len(b):
+            return ("shape", f"{path}: {len(a)} vs {len(b)} elements")
+        for i, (x, y) in enumerate(zip(a, b)):
+            d = result_diff(x, y, f"{path}[{i}]")
+            if d:
+                return d
+        return None
+    if isinstance(a, dict) and isinstance(b, dict):
+        if list(a) != list(b):
+            return ("shape", f"{path}: keys differ")
+        for k in a:
+            d = result_diff(a[k], b[k], f"{path}[{k!r}]")
+            if d:
+                return d
+        return None
+    if mutfp._is_grid(a) and mutfp._is_grid(b):
+        return None if mutfp.value_fp(a) == mutfp.value_fp(b) else ("value", f"{path}: grids differ")
+    if type(a) is not type(b):
+        return ("shape", f"{path}: {type(a).__name__} vs {type(b).__name__}")
+    try:
+        return None if a == b else ("value", f"{path}: {a!r} vs {b!r}"[:120])
+    except Exception:  # noqa: BLE001
+        return None
+
+
+def _strides(m):
+    return [(n, tuple(t.shape), tuple(t.stride()), t.storage_offset()) for n, t in m.watch]
+
+
+def run_layout_call(mod, name, D, label, form, ref_form):
+    """-> (status, problems [(problem, detail)], obs)"""
+    r = R.recipe_for(mod, name)
+    mr = R.Maker(D, ref_form)
+    st, vr = guarded(r, mr, name=name)
+    if st == "raises" or dict(vr).get(label) is None:
+        return "norecipe", [], ("norecipe",)
+    st0, ref = guarded(dict(vr)[label])
+    if st0 == "raises":
+        return "reference-raises", [], ("reference-raises", type(ref).__name__)
+    m = R.Maker(D, form)
+    _, v = guarded(r, m, name=name)
+    noncontig = sum(1 for _, t in m.watch if not t.is_contiguous())
+    if noncontig == 0:
+        return "no-noncontiguous-argument", [], ("not-applicable",)
+    before, sb = watch_snapshot(m), _strides(m)
+    st, res = guarded(dict(v)[label])
+    after, sa = watch_snapshot(m), _strides(m)
+    problems = []
+    for arg, problem, detail in compare_watch(before, after):
+        problems.append(("operand-mutated", detail))
+    if sb != sa:
+        problems.append(("operand-mutated", f"shape / strides of an argument changed: {[x for x, y in zip(sb, sa) if x != y][:2]}"))
+    if st == "raises":
+        problems.append(("raises=" + type(res).__name__, exc_text(res)))
+        return "ok", problems, ("raises", type(res).__name__, noncontig)
+    d = result_diff(ref, res)
+    if d and name in LAYOUT_RANDOM and d[0] == "value":
+        d = None  # both are valid draws; the statement makes no promise about the random stream
+    if d:
+        problems.append(d)
+    return "ok", problems, ("ok", summarize(res), noncontig)
+
+
+def layout_sig(mod, name, label, form, problem):
+    return f"C15/layout/{mod}.{name}/{label}/layout={form}/{problem}"
+
+
+def run_layout_shard(acc: Acc, shard):
+    for mod, name, D in shard["cases"]:
+        for label in func_variants(mod, name, D)[:LAYOUT_VARIANTS]:
+            for form, ref_form in LAYOUT_FORMS:
+                status, problems, obs = run_layout_call(mod, name, D, label, form, ref_form)
+                if status != "ok":
+                    acc.undef("layout:" + status)
+                    continue
+                acc.trans(2)
+                acc.trace("layout", depth=1)
+                acc.state("layout", mod, name, label, form)
+                acc.outcome("layout", mod, name, label, form, obs)
+                acc.nontriv("layout", mod, name, label, form)
+                case = {"sub": "layout", "mod": mod, "name": name, "D": D, "label": label, "form": form, "ref": ref_form}
+                for problem, detail in problems:
+                    acc.violation(layout_sig(mod, name, label, form, problem), case, detail, size=1)
+
+
+# ===========================================================================
 def bounds(tier):
     surf = R.surface()
     return {
@@ -1286,6 +1422,9 @@ def bounds(tier):
         "accessor_receivers": len(value_specs(tier)) + len(transform_specs(tier)),
         "eval_transforms": len(eval_specs(tier)),
         "eval_methods": list(EVALS),
+        "layout_functions": len(layout_cases(tier)),
+        "layout_variants_per_function": LAYOUT_VARIANTS,
+        "layout_forms": [f for f, _ in LAYOUT_FORMS],
         "chain_transforms": len(chain_specs(tier)),
         "chain_depth": 3,
         "chain_alphabet": CHAIN_OPS + ["update()"],
@@ -1304,6 +1443,9 @@ def shards(tier: str, seed: int):
         out.append({"sub": "accessor", "spec": spec})
     for spec in eval_specs(tier):
         out.append({"sub": "eval", "spec": spec})
+    cases = layout_cases(tier)
+    for j in range(0, len(cases), 8):
+        out.append({"sub": "layout", "cases": [list(c) for c in cases[j : j + 8]]})
     for spec in chain_specs(tier):
         for op in chain_alphabet(spec):
             out.append({"sub": "chain", "spec": spec, "first": op})
@@ -1325,6 +1467,8 @@ def run_shard(shard) -> Acc:
         run_accessor_shard(acc, shard)
     elif sub == "eval":
         run_eval_shard(acc, shard)
+    elif sub == "layout":
+        run_layout_shard(acc, shard)
     elif sub == "chain":
         spec, op = shard["spec"], shard["first"]
         status, problems, info = run_chain(spec, [op])
@@ -1373,6 +1517,10 @@ def replay(case):
         _, problems, _ = run_eval(spec, case["name"])
         for problem, detail in problems:
             out.append((eval_sig(spec, case["name"], problem), detail))
+    elif sub == "layout":
+        _, problems, _ = run_layout_call(case["mod"], case["name"], int(case["D"]), case["label"], case["form"], case["ref"])
+        for problem, detail in problems:
+            out.append((layout_sig(case["mod"], case["name"], case["label"], case["form"], problem), detail))
     elif sub == "chain":
         spec = case["spec"]
         _, problems, _ = run_chain(spec, [list(o) for o in case["ops"]])
